@@ -1,0 +1,11 @@
+//go:build verif
+
+package core
+
+// VerifNormalizeSymbolicLinkAndEnsurePortable exports
+// normalizeSymbolicLinkAndEnsurePortable for the verification harness
+// (/verif, property C16). It adds no behaviour: it is the unexported function
+// itself. This file is only compiled with the build tag "verif".
+func VerifNormalizeSymbolicLinkAndEnsurePortable(path, target string) (string, error) {
+	return normalizeSymbolicLinkAndEnsurePortable(path, target)
+}
